@@ -340,7 +340,19 @@ class H:
                 sim.log("handler", tf=fid, exc=describe(exc), is_exception=isinstance(exc, Exception))
                 return {"true": True, "false": False, "none": None, "one": 1, "zero": 0}[handler]
 
-            kw["exception_handler"] = eh
+            if spec.get("handler_obj"):
+                # a callable *object* whose truth value is False (it has a length of 0):
+                # "is a handler installed" must not be decided by truthiness
+                class _FalsyHandler:
+                    def __len__(self) -> int:
+                        return 0
+
+                    def __call__(self, exc: Exception) -> Any:
+                        return eh(exc)
+
+                kw["exception_handler"] = _FalsyHandler()
+            else:
+                kw["exception_handler"] = eh
         sim.log("tf_call", tf=fid, ctx=cid, owner_view=self.view(owner))
         sim.log("reg_begin", cb="tf:" + fid, ctx=cid, kind="tf")
         factory = await owner.start_background_task_factory(**kw)
@@ -1214,7 +1226,10 @@ class G:
             elif op == "tf":
                 fid = self.nid("f")
                 handler = pick(rng, {"": 3, "true": 2, "false": 1.5, "none": 0.7, "one": 0.5, "zero": 0.5})
-                out.append(["tf", {"id": fid, "handler": handler or None}])
+                tfspec: dict = {"id": fid, "handler": handler or None}
+                if handler and rng.random() < 0.25:
+                    tfspec["handler_obj"] = True
+                out.append(["tf", tfspec])
                 self.tfs.append(fid)
             elif op == "spawn":
                 out.append(self.spawn())
